@@ -27,7 +27,13 @@ def make_groups(rng):
     return gs
 
 
-def named(params):
+def named(params, scheme=0):
+    """fully qualified names; scheme 1 makes the alphabetical order of the group keys the REVERSE of the group order
+    (as with groups [weights, biases] of a real model), scheme 2 interleaves"""
+    if scheme == 1:
+        return [(f"{chr(ord('z') - gi)}{gi}.p{pi}", p) for gi, ps in enumerate(params) for pi, p in enumerate(ps)]
+    if scheme == 2:
+        return [(f"layer{pi}.g{len(params) - gi}", p) for gi, ps in enumerate(params) for pi, p in enumerate(ps)]
     return [(f"g{gi}.p{pi}", p) for gi, ps in enumerate(params) for pi, p in enumerate(ps)]
 
 
@@ -44,14 +50,15 @@ def full_snapshot(r):
 
 def save_and_reload(r, draw):
     """real save -> bytes -> fresh parameters + freshly constructed optimizer -> load"""
-    sd = r.opt.distributed_state_dict(key_to_param=iter(named(r.params)))
+    scheme = draw["seed"] % 3
+    sd = r.opt.distributed_state_dict(key_to_param=iter(named(r.params, scheme)))
     buf = io.BytesIO()
     torch.save(sd, buf)
     buf.seek(0)
     sd2 = torch.load(buf, weights_only=False)
     params2 = [[torch.nn.Parameter(p.detach().clone()) for p in ps] for ps in r.params]
     opt2, _ = realopt.build(draw, params=params2)
-    opt2.load_distributed_state_dict(state_dict=sd2, key_to_param=iter(named(params2)))
+    opt2.load_distributed_state_dict(state_dict=sd2, key_to_param=iter(named(params2, scheme)))
     r2 = rp.Runner(draw, numeric=False, opt=opt2, params=params2)
     r2.t = r.t
     r2.hy = copy.deepcopy(r.hy)
@@ -84,6 +91,11 @@ def resume_task(args):
                 b2, sd = save_and_reload(b, draw)
             except Exception as ex:
                 mm.append((k, f"resume.load_failed.k{k}", "checkpoint of an unmodified optimizer loads", f"{type(ex).__name__}: {str(ex)[:120]}"))
+                continue
+            pg_bad = [(gi, key) for gi, (ga, gb) in enumerate(zip(b.opt.param_groups, b2.opt.param_groups)) for key in ga
+                      if key != "params" and repr(ga[key]) != repr(gb[key])]
+            if pg_bad:
+                mm.append((k, f"resume.param_groups.k{k}", "every group's hyperparameters restored into that group", f"differs in {pg_bad[:4]}"))
                 continue
             if k > 0 and full_snapshot(b2) != snaps[k - 1]:
                 diff = sorted(x for x in snaps[k - 1] if snaps[k - 1][x] != full_snapshot(b2).get(x))
